@@ -352,28 +352,39 @@ theorem c09_earlyStopRequest_idempotent (r : EarlyStopRequest) (h : ProblemOk Cf
       = earlyStopRequestToProto Cfg.fixed r := by
   rw [earlyStopRequest_roundtrip Cfg.fixed r h, earlyStopRequestToProto_norm]
 
-/-- FULL STATEMENT for EarlyStopDecisions (no hypothesis about predictions) -/
-def EarlyStopDecisionsRoundTrip (cfg : Cfg) : Prop :=
+/-- FULL STATEMENT for EarlyStopDecisions (no hypothesis about predictions); `optPred`: which variant of the
+converter (true = the repaired one, the optional field is set only when there is a prediction) -/
+def EarlyStopDecisionsRoundTrip (optPred : Bool) (cfg : Cfg) : Prop :=
   ∀ d : EarlyStopDecisions, DeltaWF d.metadata →
     (∀ e ∈ d.decisions, ∀ m, e.predicted = some m → MeasOk cfg m) →
-    earlyStopDecisionsFromProto cfg (earlyStopDecisionsToProto d) = earlyStopDecisionsNorm d
+    earlyStopDecisionsFromProto optPred cfg (earlyStopDecisionsToProto optPred d) = earlyStopDecisionsNorm d
 
-/-- PROVED PART: decisions that all carry a predicted final measurement -/
-theorem c09_earlyStopDecisions_roundtrip_partial (d : EarlyStopDecisions) (h : EarlyStopDecisionsOk Cfg.fixed d) :
-    earlyStopDecisionsFromProto Cfg.fixed (earlyStopDecisionsToProto d) = earlyStopDecisionsNorm d :=
-  earlyStopDecisions_roundtrip Cfg.fixed d h
+/-- the repaired converter: decisions with and without a predicted final measurement survive -/
+theorem c09_earlyStopDecisions_roundtrip : EarlyStopDecisionsRoundTrip true Cfg.fixed :=
+  fun d hw hm => earlyStopDecisions_roundtrip_opt Cfg.fixed d hw hm
 
-theorem c09_earlyStopDecisions_idempotent_partial (d : EarlyStopDecisions) (h : EarlyStopDecisionsOk Cfg.fixed d) :
-    earlyStopDecisionsToProto (earlyStopDecisionsFromProto Cfg.fixed (earlyStopDecisionsToProto d))
-      = earlyStopDecisionsToProto d := by
-  rw [earlyStopDecisions_roundtrip Cfg.fixed d h, earlyStopDecisionsToProto_norm]
+theorem c09_earlyStopDecisions_idempotent (d : EarlyStopDecisions) (hw : DeltaWF d.metadata)
+    (hm : ∀ e ∈ d.decisions, ∀ m, e.predicted = some m → MeasOk Cfg.fixed m) :
+    earlyStopDecisionsToProto true (earlyStopDecisionsFromProto true Cfg.fixed (earlyStopDecisionsToProto true d))
+      = earlyStopDecisionsToProto true d := by
+  rw [earlyStopDecisions_roundtrip_opt Cfg.fixed d hw hm, earlyStopDecisionsToProto_norm]
+
+/-- PROVED PART for either variant: decisions that all carry a predicted final measurement -/
+theorem c09_earlyStopDecisions_roundtrip_partial (o : Bool) (d : EarlyStopDecisions) (h : EarlyStopDecisionsOk Cfg.fixed d) :
+    earlyStopDecisionsFromProto o Cfg.fixed (earlyStopDecisionsToProto o d) = earlyStopDecisionsNorm d :=
+  earlyStopDecisions_roundtrip o Cfg.fixed d h
+
+theorem c09_earlyStopDecisions_idempotent_partial (o : Bool) (d : EarlyStopDecisions) (h : EarlyStopDecisionsOk Cfg.fixed d) :
+    earlyStopDecisionsToProto o (earlyStopDecisionsFromProto o Cfg.fixed (earlyStopDecisionsToProto o d))
+      = earlyStopDecisionsToProto o d := by
+  rw [earlyStopDecisions_roundtrip o Cfg.fixed d h, earlyStopDecisionsToProto_norm]
 
 def noPredictionWitness : EarlyStopDecisions := ⟨[⟨1, "r", false, none⟩], ⟨[], []⟩⟩
 
-/-- a decision without prediction is sent with an empty `Measurement()` and comes back with a
-prediction (and the second conversion adds an `elapsed_duration`) — under every variant
-(recorded finding) -/
-theorem c09_earlyStopDecisions_no_prediction_counterexample (cfg : Cfg) : ¬ EarlyStopDecisionsRoundTrip cfg := by
+/-- the pinned converter: a decision without prediction is sent with an empty `Measurement()` and comes back
+with a prediction (and the second conversion adds an `elapsed_duration`) — under every variant of the other
+flags (repaired in /repo; the witness identifies the variant of the current tree) -/
+theorem c09_earlyStopDecisions_no_prediction_counterexample (cfg : Cfg) : ¬ EarlyStopDecisionsRoundTrip false cfg := by
   intro hrt
   have hw : DeltaWF noPredictionWitness.metadata :=
     { study := ⟨by decide, (by intro g hg; cases hg), (by intro g hg; cases hg)⟩
@@ -388,8 +399,12 @@ theorem c09_earlyStopDecisions_no_prediction_counterexample (cfg : Cfg) : ¬ Ear
   cases a <;> cases b <;> cases c <;> cases d <;> (revert this; decide +kernel)
 
 theorem c09_earlyStopDecisions_no_prediction_idempotent_counterexample :
-    earlyStopDecisionsToProto (earlyStopDecisionsFromProto Cfg.fixed (earlyStopDecisionsToProto noPredictionWitness))
-      ≠ earlyStopDecisionsToProto noPredictionWitness := by decide +kernel
+    earlyStopDecisionsToProto false (earlyStopDecisionsFromProto false Cfg.fixed (earlyStopDecisionsToProto false noPredictionWitness))
+      ≠ earlyStopDecisionsToProto false noPredictionWitness := by decide +kernel
+
+/-- non-vacuity of the repaired statement: the witness itself survives -/
+example : earlyStopDecisionsFromProto true Cfg.fixed (earlyStopDecisionsToProto true noPredictionWitness)
+    = earlyStopDecisionsNorm noPredictionWitness := by decide +kernel
 
 /-! ## the normal forms are normal forms, and the hypotheses are satisfiable -/
 
